@@ -244,10 +244,39 @@ PREDICATES = [
     ("psyclone.core.symbolic_maths.SymbolicMaths", "never_equal", True),
 ]
 
+def check_option_leaks(idx, run):
+    """No transformation stores into the dictionary its caller passed as
+    `options`: scripts reuse one dictionary for many loops, and a 'force'
+    (or similar) entry left behind switches the dependence analysis of the
+    next parallelising transformation off."""
+    import ast
+    from sa.index import loc
+    from rules.common_parallel import caller_option_stores
+    count = 0
+    for cls in idx.all_subclasses("psyclone.psyGen.Transformation"):
+        for meth in ("validate", "apply"):
+            func = cls.methods.get(meth)
+            if func is None or "options" not in [
+                    a.arg for a in func.args.args + func.args.kwonlyargs]:
+                continue
+            count += 1
+            stores = caller_option_stores(func)
+            run.check("C09.R8", not stores, f"{cls.name}.{meth}",
+                      "the caller's options dictionary is not written",
+                      f"{cls.name}.{meth} stores into the dictionary the "
+                      f"caller passed as options ("
+                      f"{ast.unparse(stores[0])[:60] if stores else ''}): "
+                      f"the entry is still there when the script passes the "
+                      f"same dictionary to the next transformation",
+                      loc(cls.module, stores[0] if stores else func))
+    run.floor("transformations taking options", count, 110)
+
+
 def check(idx, run):
     run.explanation = __doc__
     from sa.guards import check_predicates
     check_predicates(idx, run, "C09.R7", PREDICATES)
+    check_option_leaks(idx, run)
     from sa.guards import check_guards
     check_guards(idx, run, "C09.R6", GUARDED)
     from rules.common_parallel import check_fresh_unknown
